@@ -765,6 +765,25 @@ fn run(ctx: &mut Ctx) {
             pair_case(ctx, a, b);
         }
     }
+    // (b3) all pairs of sets over THREE clients (clocks 0..2 quick / 0..3 thorough): a client present on one side only, in
+    // the middle of the client order, on both sides with disjoint ranges
+    let n3 = match ctx.tier {
+        Tier::Quick => 2,
+        Tier::Thorough => 3,
+    };
+    let sets3 = all_sets(n3, 3);
+    ctx.count("set_values_three_clients", if ctx.shard == 0 { sets3.len() as u64 } else { 0 });
+    for (i, a) in sets3.iter().enumerate() {
+        if !ctx.mine(i as u64) {
+            continue;
+        }
+        if ctx.out_of_time() {
+            return;
+        }
+        for b in &sets3 {
+            pair_case(ctx, a, b);
+        }
+    }
     // (c) all pairs of maps
     let maps = all_maps(n_mpair);
     ctx.count("map_values", if ctx.shard == 0 { maps.len() as u64 } else { 0 });
